@@ -4,6 +4,7 @@ pub mod error {
     use vstd::prelude::*;
     use vstd::std_specs::convert::FromSpecImpl;
     pub struct Error { pub inner: InnerError }
+    impl std::fmt::Debug for Error { #[verifier::external_body] fn fmt(&self, f: &mut std::fmt::Formatter<'_>) -> std::fmt::Result { Ok(()) } }
     pub enum InnerError {
         Deleted, Duplicate, EndOfInput, General(String), Lmdb, InvalidDelete, Io, Ownership, PocketTypes, Replaced, Scraper, WrongEventKind,
     }
